@@ -1892,6 +1892,11 @@ def oracle_C16(objs, st=None, nhist=3, hlen=6, n_named=None, seed=0):
                     st.check('setting the vector just read changes nothing', w, 1e-13, dict(case_id(c), history=list(hist)))
                 cid = dict(case_id(c), history=list(hist))
                 st.check('one DOF entry per advertised name', float(len(q.get_dofs()) != len(q.names) or len(q.names) != 4 * q.nfourier + 7), 0.0, cid)
+                if op in ('resize_down', 'resize_up', 'get'):
+                    # operations that may legitimately skip the recomputation: the state must be right immediately after them
+                    # (a later set_dofs / calculate() in the same history would repair a stale state before anybody looked)
+                    d_, wn_ = same_as_fresh(q)
+                    st.check('after any history every output equals that of a fresh object built from the current parameters', d_, 1e-12, cid, detail=dict(worst_attribute=wn_))
             d, wn = same_as_fresh(q)
             st.evaluations += 0
             st.distinct.add(json_key(c) + str(h))
